@@ -111,8 +111,8 @@ func RunScenarios(bin string, scs []*Scenario, procs int, env []string) error {
 					continue
 				}
 				s.Result = &r
-				if r.Hung {
-					// the probe exits by itself after reporting a hang
+				if r.Hung || r.Dirty {
+					// the probe exits by itself after reporting a hang / an escaped panic
 					p.Kill()
 				}
 			}
